@@ -47,6 +47,12 @@ func (h *harness) judge(c *engine.Case, reply string) verdict {
 		return verdict{Class: "harness", Cat: "compile", What: err.Error()}
 	}
 	v := verdict{Real: real}
+	var mo *engine.Observed
+	var moErr error
+	if reply != "" {
+		mo, moErr = engine.ParseModelReply(reply)
+		v.Model = mo
+	}
 	if real.Panic != "" {
 		v.Class, v.Cat, v.What = "crash", "crash", "panic: "+real.Panic
 		return v
@@ -61,18 +67,16 @@ func (h *harness) judge(c *engine.Case, reply string) verdict {
 	}
 	if m := engine.SerialOrder(c, real, false); m != "" {
 		// the only late events are fulfilments of promises the executor had abandoned: F-11a
-		v.Class, v.Cat, v.What, v.Finding = "property", "abandoned", m+fmt.Sprintf(" — the promise was abandoned (never received) after a sibling failure had already settled root field; abandoned: %v", real.Abandoned), findingAbandoned
+		v.Class, v.Cat, v.What, v.Finding = "property", "abandoned", m+fmt.Sprintf(" — the executor never received that promise: a failing sibling had already settled its root field; never received: %v", real.Abandoned), findingAbandoned
 		return v
 	}
 	if reply != "" {
-		mo, err := engine.ParseModelReply(reply)
-		if err != nil {
-			v.Class, v.Cat, v.What = "correspondence", "reply", err.Error()
+		if moErr != nil {
+			v.Class, v.Cat, v.What = "correspondence", "reply", moErr.Error()
 			return v
 		}
-		v.Model = mo
 		switch {
-		case len(real.Events) != len(mo.Events) || (len(real.Events) > 0 && !reflect.DeepEqual(real.Events, mo.Events)):
+		case !sameEvents(real.Events, mo.Events):
 			v.Class, v.Cat, v.What = "correspondence", "events", fmt.Sprintf("event log: implementation %v, model %v", real.Events, mo.Events)
 		case real.Data != mo.Data:
 			v.Class, v.Cat, v.What = "correspondence", "data", fmt.Sprintf("data: implementation %s, model %s", real.Data, mo.Data)
@@ -83,6 +87,18 @@ func (h *harness) judge(c *engine.Case, reply string) verdict {
 		}
 	}
 	return v
+}
+
+func sameEvents(a, b []engine.Event) bool {
+	if len(a) != len(b) {
+		return false
+	}
+	for i := range a {
+		if a[i].Kind != b[i].Kind || a[i].Path != b[i].Path {
+			return false
+		}
+	}
+	return true
 }
 
 func (h *harness) judgeAsk(c *engine.Case) verdict {
@@ -314,7 +330,7 @@ func (h *harness) exhaustive() {
 
 func (h *harness) random() {
 	run := h.run
-	n := run.Scale(15000, 200000)
+	n := run.Scale(50000, 200000)
 	var pending []*engine.Case
 	for i := 0; i < n; i++ {
 		r := run.Rand.Fork()
